@@ -1414,6 +1414,14 @@ func (ctx Ctx) exprSpecial(e ast.Expr, isSpecial bool) coq.Expr {
 	case *ast.MapType:
 		return ctx.mapType(e)
 	case *ast.Ident:
+		if inst, ok := ctx.info.Instances[e]; ok {
+			// a generic function used as a value: Go infers the type
+			// arguments its definition takes first
+			return coq.CallExpr{
+				MethodName: ctx.identExpr(e),
+				TypeArgs:   ctx.typeList(e, inst.TypeArgs),
+			}
+		}
 		return ctx.identExpr(e)
 	case *ast.SelectorExpr:
 		return ctx.selectExpr(e)
